@@ -18,4 +18,4 @@ print(id, m['final_run']['detected'], m['final_run']['exit'], sigs[:2])
 PY
 }
 export -f one
-printf "%s\n" $ids | xargs -P 3 -I{} bash -c 'one {}'
+printf "%s\n" $ids | xargs -P ${SEED_PAR:-3} -I{} bash -c 'one {}'
